@@ -91,6 +91,11 @@ def parse_content_disposition(
     def is_quoted(string: str) -> bool:
         return len(string) >= 2 and string[0] == string[-1] == '"'
 
+    def is_unclosed(string: str) -> bool:
+        # An opening quote followed by qdtext and quoted-pairs only: a quote at
+        # the end is an escaped one, the closing quote is in a later piece.
+        return re.fullmatch(r'"(?:[^"\\]|\\.)*\\?', string, re.S) is not None
+
     def is_rfc5987(string: str) -> bool:
         return is_token(string) and string.count("'") == 2
 
@@ -168,7 +173,7 @@ def parse_content_disposition(
         else:
             failed = True
             rstripped = value.rstrip()
-            if is_quoted(rstripped):
+            if is_quoted(rstripped) and not (parts and is_unclosed(rstripped)):
                 failed = False
                 value = unescape(rstripped[1:-1].lstrip("\\/"))
             elif is_token(value):
@@ -177,7 +182,9 @@ def parse_content_disposition(
                 # maybe just ; in filename: the quoted value goes on up to
                 # the piece that ends with the closing quote
                 _value = value
-                while parts and not is_quoted(_value.rstrip()):
+                while parts and (
+                    not is_quoted(_value.rstrip()) or is_unclosed(_value.rstrip())
+                ):
                     _value = f"{_value};{parts.pop(0)}"
                 _value = _value.rstrip()
                 if is_quoted(_value):
